@@ -161,6 +161,7 @@ class Crate:
         # helpers extracted by a refactoring (private fns unknown to the pinned tree) are inlined back (va/inline.py)
         from . import inline
         self.inlined = inline.apply(self)
+        self.desugared = inline.desugar_option_tests(self)
 
     def ty(self, i):
         return self.types[i]
